@@ -38,6 +38,13 @@ fn main() -> ExitCode {
             }
         }
         "check" => supervise(&args[2], tier_of(&args)),
+        "digest" => {
+            let seed = arg_after(&args, "--seed").and_then(|s| s.parse().ok()).unwrap_or(0);
+            let count = arg_after(&args, "--count").and_then(|s| s.parse().ok()).unwrap_or(1000);
+            let out = arg_after(&args, "--out").unwrap_or_else(|| "/dev/stdout".into());
+            let dump = arg_after(&args, "--dump-index").and_then(|s| s.parse().ok());
+            ExitCode::from(lsv_core::checks::matrix::digest_command(seed, count, &out, dump) as u8)
+        }
         "replay" => {
             let code = lsv_core::checks::replay::replay_file(&args[2]);
             ExitCode::from(code as u8)
